@@ -1,6 +1,7 @@
 CONSTANTS
   MaxVersions = 4
   PageSize = 2
+  MaxEmpty = 1
   MaxPolls = 3
   Design = "token"
   Modes = {"wipe","getver","poll","sign"}
